@@ -13,6 +13,7 @@
 import NiftyVerif.Model.Lanczos
 import NiftyVerif.Lemmas.GaussMarkov
 import NiftyVerif.Lemmas.LanczosOrtho
+import NiftyVerif.Lemmas.LanczosMoments
 import Mathlib.LinearAlgebra.Matrix.SchurComplement
 import Mathlib.Analysis.SpecialFunctions.Log.Basic
 
@@ -110,6 +111,25 @@ theorem lanczos_tridiagonal (hA : ∀ x y, c.B (A x) y = c.B x (A y)) (hb : ∀ 
   Lanczos.tridiagonal_entries c A sqrt v1 hA hb hs h1 i k
 
 end lanczos
+
+/-! ## exactness of the quadrature at full order -/
+section quadrature
+open Matrix
+variable {n : Type} [Fintype n] [DecidableEq n]
+
+/-- **quadrature_exact_full_order**: when the Lanczos basis fills the space (`V Vᵀ = 1`, order = dimension) and `T = Vᵀ A V`,
+    then `p(T) = Vᵀ p(A) V` for every polynomial `p`; entry `(1,1)` is the stochastic-Lanczos-quadrature value
+    `e₁ᵀ p(T) e₁ = v₁ᵀ p(A) v₁` — the estimator is exact for every function of the (finite) spectrum -/
+theorem quadrature_exact_full_order (A V : Matrix n n ℝ) (hV : V * Vᵀ = 1) (p : Polynomial ℝ) :
+    Polynomial.aeval (Vᵀ * A * V) p = Vᵀ * Polynomial.aeval A p * V :=
+  Lanczos.conj_aeval A V hV p
+
+/-- moment form: `(T^k)_{ij} = v_iᵀ A^k v_j` for all `k` -/
+theorem quadrature_moments (A V : Matrix n n ℝ) (hV : V * Vᵀ = 1) (k : ℕ) (i j : n) :
+    ((Vᵀ * A * V) ^ k) i j = (fun a => V a i) ⬝ᵥ (A ^ k) *ᵥ (fun b => V b j) :=
+  Lanczos.full_order_moments A V hV k i j
+
+end quadrature
 
 /-! ## Welford merge -/
 section welford
